@@ -15,7 +15,8 @@ def decode(string):
   return unsafe_decode(string)
 
 def validate_decoded(obj):
-  if isinstance(obj, int) or isinstance(obj, gfapy.Placeholder):
+  if (isinstance(obj, int) and not isinstance(obj, bool)) or \
+      isinstance(obj, gfapy.Placeholder):
     pass
   else:
     raise gfapy.TypeError(
